@@ -74,6 +74,38 @@ def generate(rng, tier):
                 l1 = "R %s %s %s %s %s" % (sp.s(), E.cfg_str(allow, mx, pbuf, 0, cap), ",".join(scr), hexd, "N" * (len(chosen) + 2))
                 l2 = "R %s %s - %s N" % (sp.s(), E.cfg_str(allow, mx, pbuf, 1), hexd)
                 cases.append(Case([l0, l1, l2], "pause", {"pause": True, "buffered": bool(pbuf)}))
+                # the same pauses with the bytes arriving one per read: every capacity works (one byte always fits after growth), so
+                # pauses x capacities are covered too; some of these pauses are met by the 16-byte header look-ahead of the tag before
+                # the boundary rather than at the boundary (both change nothing)
+                if n <= 4000 and not pbuf:
+                    scr1, prev = [], 0
+                    for b in chosen:
+                        scr1 += ["1"] * (b - prev) + ["p"]
+                        prev = b
+                    scr1 += ["1"] * (n - prev)
+                    cap1 = rng.choice(["def", "64", "17", "16", "3", "1", "0"])
+                    l1b = "R %s %s %s %s %s" % (sp.s(), E.cfg_str(allow, mx, pbuf, 0, cap1), ",".join(scr1), hexd, "N" * (len(chosen) + 2))
+                    cases.append(Case([l0, l1b, l2], "pause1", {"pause": True, "buffered": False}))
+    # a dangling byte after a tag whose payload is long enough for the buffer to run dry exactly at the tag boundary (payload reads are
+    # exact, header reads look 16 bytes ahead): whether that byte is seen must not depend on capacity or chunking
+    bsp = E.base_spec()
+    for k in range(400 * TH if thorough else 40):
+        pl = E.rand_bytes(rng, rng.choice([16, 17, 30, 64, 200]))
+        inner = E.Node(("m", E.PARENT), rng.choice([None, 8, "u"]), [E.Node(("b", E.CHILD, pl), rng.choice([None, 2, 8]))])
+        nodes = [E.Node(("m", E.ROOT), rng.choice([None, 4, "u"]), [inner] if rng.random() < 0.7 else [inner, E.Node(("u", E.LEAFU if False else 0x4101, 7), None)])]
+        try:
+            d = E.encode(strip_enc(nodes) if rng.random() < 0.3 else nodes)
+        except AssertionError:
+            d = E.encode(strip_enc(nodes))
+        d = d + bytes([rng.choice([0x81, 0x41, 0x01, 0xEC, 0xF7, rng.getrandbits(8)])]) * rng.choice([1, 1, 2])
+        n = len(d)
+        lines = ["R %s %s - %s N" % (bsp.s(), E.cfg_str(0, "def", (), 1), d.hex())]
+        for _ in range(4):
+            cap = rng.choice(["def", "0", "1", "16", "17", "32", str(n - 1), str(n - 2)])
+            cut = rng.choice([n - 1, n - 2, n - 3])
+            scr = rng.choice([E.script_str(E.rand_script(rng, n)), "%d,1,1,1" % cut, "%d,%d" % (cut, n - cut), "-"])
+            lines.append("R %s %s %s %s N" % (bsp.s(), E.cfg_str(0, "def", (), 1, cap), scr, d.hex()))
+        cases.append(Case(lines, "dangling", {"pause": False}))
     # exhaustive partitions x capacities of small inputs
     sp = E.base_spec()
     smalls = []
